@@ -136,6 +136,8 @@ namespace cs
                         r.size  = comp->fixed_size;
                         r.align = comp->fixed_align;
                     }
+                    if (comp->align_cap && r.align > comp->align_cap)
+                        r.align = comp->align_cap;
                     if (r.array && r.count * r.size > (200u << 10))
                         r.count = 1 + (200u << 10) / r.size / 2;
                     if (r.size > (200u << 10))
